@@ -257,7 +257,7 @@ class CreationTime(Signature):
 
     def __bytearray__(self):
         _bytes = super(CreationTime, self).__bytearray__()
-        _bytes += self.int_to_bytes(calendar.timegm(self.created.utctimetuple()), 4)
+        _bytes += self.int_to_fixed(calendar.timegm(self.created.utctimetuple()), 4)
         return _bytes
 
     def parse(self, packet):
@@ -300,7 +300,7 @@ class SignatureExpirationTime(Signature):
 
     def __bytearray__(self):
         _bytes = super(SignatureExpirationTime, self).__bytearray__()
-        _bytes += self.int_to_bytes(int(self.expires.total_seconds()), 4)
+        _bytes += self.int_to_fixed(int(self.expires.total_seconds()), 4)
         return _bytes
 
     def parse(self, packet):
@@ -395,7 +395,7 @@ class TrustSignature(Signature):
 
     def __bytearray__(self):
         _bytes = super(TrustSignature, self).__bytearray__()
-        _bytes += self.int_to_bytes(self.level)
+        _bytes += self.int_to_fixed(self.level, 1)
         _bytes += self.int_to_bytes(self.amount)
         return _bytes
 
@@ -681,8 +681,8 @@ class NotationData(Signature):
         # the two length fields count octets of the encoded name and value
         name = self.name.encode('utf-8', 'surrogateescape')
         value = self.value if isinstance(self.value, bytearray) else self.value.encode('utf-8', 'surrogateescape')
-        _bytes += self.int_to_bytes(len(name), 2)
-        _bytes += self.int_to_bytes(len(value), 2)
+        _bytes += self.int_to_fixed(len(name), 2)
+        _bytes += self.int_to_fixed(len(value), 2)
         _bytes += name
         _bytes += value
         return bytes(_bytes)
